@@ -132,6 +132,8 @@ impl Dictionary for MergedDictionary {
             .iter()
             .flat_map(|d| d.fuzzy_match(word, max_distance, max_results))
             .sorted_by_key(|r| r.edit_distance)
+            // A word listed by more than one child is one result, not several.
+            .unique_by(|r| r.word)
             .take(max_results)
             .collect()
     }
@@ -146,6 +148,8 @@ impl Dictionary for MergedDictionary {
             .iter()
             .flat_map(|d| d.fuzzy_match_str(word, max_distance, max_results))
             .sorted_by_key(|r| r.edit_distance)
+            // A word listed by more than one child is one result, not several.
+            .unique_by(|r| r.word)
             .take(max_results)
             .collect()
     }
